@@ -130,7 +130,8 @@ def step(draw, nev, nin):
     if op == "evaluate":
         s.update({"result_all": draw(OPT), "sgt": draw(OPT), "lt": draw(OPT), "vb": draw(OPT)})
     elif op == "construct":
-        s["what"] = draw(st.sampled_from(["evaluator_default", "handler_default", "naive_default", "merge_default", "evaluator_random_used"]))
+        s["what"] = draw(st.sampled_from(["evaluator_default", "handler_default", "naive_default", "merge_default", "evaluator_random_used",
+                                          "evaluator_decision_outside_metrics", "evaluator_no_global_metrics", "approximator_default_used", "groups_object"]))
     elif op == "aggregate":
         s.update({"log_times": draw(st.booleans()), "stat": draw(st.booleans())})
     elif op == "load_shipped":
@@ -250,6 +251,18 @@ def check(case, stats):
                         H.lib_call(NaiveThresholdMatching)
                     elif w == "merge_default":
                         H.lib_call(MaximizeMergeMatching)
+                    elif w == "evaluator_decision_outside_metrics":
+                        # legal to construct (evaluate would refuse): must not influence any other object
+                        H.lib_call(lambda: Panoptica_Evaluator(decision_metric=lib.metric("clDSC"), decision_threshold=0.5))
+                    elif w == "evaluator_no_global_metrics":
+                        H.lib_call(lambda: Panoptica_Evaluator(global_metrics=[], decision_metric=lib.metric("IOU"), decision_threshold=0.5))
+                    elif w == "approximator_default_used":
+                        from panoptica import ConnectedComponentsInstanceApproximator, SemanticPair
+                        a_ = ConnectedComponentsInstanceApproximator()
+                        for probe in (np.eye(3, dtype=np.uint8), np.eye(2, dtype=np.uint8)[None].repeat(2, 0)):
+                            H.lib_call(lambda: a_.approximate_instances(SemanticPair(probe.copy(), probe.copy())))
+                    elif w == "groups_object":
+                        H.lib_call(lambda: lib.groups([{"name": "a", "labels": [1, 2], "kind": "merge"}, {"name": "b", "labels": [3], "kind": "single"}]))
                     else:
                         e2 = H.lib_call(lib.evaluator, case["extra"])
                         H.lib_call(e2.evaluate, *arrays[j])
